@@ -16,7 +16,8 @@ open Genshi Genshi.Xml Genshi.Sexp
     tok <text>                         -> ( ok tokens ) | N
     read <text>                        -> ( ok events ) | N
     roundtrip <ranges> <stream>        -> read (enc (ser stream))
-    domain <pref> <stream>             -> ( inDomain conclusionHolds ) for xml_roundtrip_events
+    domain <pref> <stream>             -> ( inDomain conclusionHolds inTextDomain textConclusionHolds ) for
+                                          xml_roundtrip_events / xml_roundtrip_partial
     coalesce <stream>                  -> stream
     qname <text>                       -> ( ns loc )
   <pref> = ( ( uri prefix ) ... ), <ranges> = ( ( lo hi ) ... )
@@ -89,7 +90,11 @@ def handle : List Sexp → Option Sexp
       let xs := emptyTag s
       let inDom := docOK xs && prefOK p && decide (WellNested s)
       let holds := decide (Reader.resolve ((flatten p xs).map normF) = some (canonX xs))
-      pure (.list [ofBool inDom, ofBool holds])
+      let inText := inDom && bodyOK (flatten p xs)
+      let textHolds := match serRun SerSt.init (flatten p xs) with
+        | some out => decide (Reader.read out = some (canonX xs))
+        | none => false
+      pure (.list [ofBool inDom, ofBool holds, ofBool inText, ofBool textHolds])
   | [.atom "coalesce", s] => do
       let s ← streamOfSexp? s
       pure (streamToSexp (coalesce s))
